@@ -33,7 +33,9 @@ pub fn slurping(mut r: impl Read) -> std::io::Result<usize> {
 	let mut s = String::new();
 	r.read_to_string(&mut s)?;
 	let t = std::io::read_to_string(&mut r)?;
-	Ok(buf.len() + s.len() + t.len())
+	let whole = std::fs::read("/nonexistent")?;
+	let text = std::fs::read_to_string("/nonexistent")?;
+	Ok(buf.len() + s.len() + t.len() + whole.len() + text.len())
 }
 
 pub fn stdio() {
